@@ -19,7 +19,9 @@ func runC36(c *Ctx) {
 	p := c.P
 	rel := "tracing"
 	lockHeld := func(r *Row) bool {
-		l := callIndex(r, func(e *Effect) bool { return e.Callee != nil && e.Callee.Name() == "Lock" && strings.HasSuffix(e.RecvS, ".mu") })
+		l := callIndex(r, func(e *Effect) bool {
+			return e.Callee != nil && e.Callee.Name() == "Lock" && strings.HasSuffix(e.RecvS, ".mu")
+		})
 		if l != 0 {
 			return false
 		}
@@ -55,7 +57,9 @@ func runC36(c *Ctx) {
 				}
 			}
 			if !v.B("known") {
-				if len(r.Stores(func(e *Effect) bool { return strings.Contains(e.RecvS, "tracingTasks[") && strings.HasSuffix(e.RecvS, "]") })) != 1 {
+				if len(r.Stores(func(e *Effect) bool {
+					return strings.Contains(e.RecvS, "tracingTasks[") && strings.HasSuffix(e.RecvS, "]")
+				})) != 1 {
 					return false, "a task not yet known must be entered into the running-task table"
 				}
 			}
@@ -80,7 +84,9 @@ func runC36(c *Ctx) {
 	}
 	if f := c.fn("start-tracing", rel, "DBTracer", "StartTracing"); f != nil {
 		t := ExtractTable(p, f, TableConfig{})
-		ne := Role{Name: "running", IsBool: true, Match: func(a *Atom) bool { return strings.HasPrefix(a.Key, "range-nonempty(") && strings.Contains(a.Key, "tracingTasks") }}
+		ne := Role{Name: "running", IsBool: true, Match: func(a *Atom) bool {
+			return strings.HasPrefix(a.Key, "range-nonempty(") && strings.Contains(a.Key, "tracingTasks")
+		}}
 		CheckTable(c, "start-tracing", "tracing.DBTracer.StartTracing", p.Decl(f).Pos(), t, []Role{ne}, nil, nil, func(v RoleVals, r *Row) (bool, string) {
 			if !lockHeld(r) {
 				return false, "must hold the mutex"
@@ -94,7 +100,9 @@ func runC36(c *Ctx) {
 				return false, "must record the window's start time from the clock"
 			}
 			if v.B("running") {
-				mk := r.Stores(func(e *Effect) bool { return strings.HasSuffix(e.RecvS, ".toRecord") && strings.Contains(e.RecvS, "value-of(") })
+				mk := r.Stores(func(e *Effect) bool {
+					return strings.HasSuffix(e.RecvS, ".toRecord") && strings.Contains(e.RecvS, "value-of(")
+				})
 				if len(mk) != 1 || mk[0].Args[0] != "true" {
 					return false, "every task running when tracing is switched on overlaps the window and must be marked for recording"
 				}
@@ -104,8 +112,12 @@ func runC36(c *Ctx) {
 	}
 	if f := c.fn("end-task", rel, "DBTracer", "EndTask"); f != nil {
 		t := ExtractTable(p, f, TableConfig{LoopsOnce: true})
-		ms := Role{Name: "milestones", IsBool: true, Match: func(a *Atom) bool { return strings.HasPrefix(a.Key, "range-nonempty(") && strings.HasSuffix(a.Key, ".Milestones)") }}
-		tg := Role{Name: "tags", IsBool: true, Match: func(a *Atom) bool { return strings.HasPrefix(a.Key, "range-nonempty(") && strings.HasSuffix(a.Key, ".Tags)") }}
+		ms := Role{Name: "milestones", IsBool: true, Match: func(a *Atom) bool {
+			return strings.HasPrefix(a.Key, "range-nonempty(") && strings.HasSuffix(a.Key, ".Milestones)")
+		}}
+		tg := Role{Name: "tags", IsBool: true, Match: func(a *Atom) bool {
+			return strings.HasPrefix(a.Key, "range-nonempty(") && strings.HasSuffix(a.Key, ".Tags)")
+		}}
 		CheckTable(c, "end-task", "tracing.DBTracer.EndTask", p.Decl(f).Pos(), t, []Role{known, marked, ms, tg}, nil,
 			func(v RoleVals) bool { return v.B("known") || (!v.B("marked") && !v.B("milestones") && !v.B("tags")) },
 			func(v RoleVals, r *Row) (bool, string) {
@@ -113,7 +125,9 @@ func runC36(c *Ctx) {
 					return false, "must hold the mutex"
 				}
 				tr, mi, ta := inserts(r, "traceTableName"), inserts(r, "milestoneTableName"), inserts(r, "tagTableName")
-				del := r.Calls(func(e *Effect) bool { return e.Callee == nil && strings.HasPrefix(e.Str, "delete(") || (e.Callee != nil && e.Callee.Name() == "delete") })
+				del := r.Calls(func(e *Effect) bool {
+					return e.Callee == nil && strings.HasPrefix(e.Str, "delete(") || (e.Callee != nil && e.Callee.Name() == "delete")
+				})
 				if !v.B("known") {
 					if len(tr)+len(mi)+len(ta) > 0 {
 						return false, "ending an unknown task must record nothing"
@@ -166,7 +180,9 @@ func runC36(c *Ctx) {
 	}
 	if f := c.fn("add-milestone", rel, "DBTracer", "AddMilestone"); f != nil {
 		t := ExtractTable(p, f, TableConfig{LoopsOnce: true})
-		ne := Role{Name: "has", IsBool: true, Match: func(a *Atom) bool { return strings.HasPrefix(a.Key, "range-nonempty(") && strings.HasSuffix(a.Key, ".Milestones)") }}
+		ne := Role{Name: "has", IsBool: true, Match: func(a *Atom) bool {
+			return strings.HasPrefix(a.Key, "range-nonempty(") && strings.HasSuffix(a.Key, ".Milestones)")
+		}}
 		et := Role{Name: "et", Match: func(a *Atom) bool { return strings.Contains(a.Key, "value-of(") && strings.HasSuffix(a.Key, ".Time") }}
 		mt := Role{Name: "mt", Match: func(a *Atom) bool { return !strings.Contains(a.Key, "value-of(") && strings.HasSuffix(a.Key, ".Time") }}
 		CheckTable(c, "add-milestone", "tracing.DBTracer.AddMilestone", p.Decl(f).Pos(), t, []Role{known, ne, et, mt}, []int{0, 1, 2},
@@ -175,7 +191,9 @@ func runC36(c *Ctx) {
 				if !lockHeld(r) {
 					return false, "must hold the mutex"
 				}
-				app := r.Stores(func(e *Effect) bool { return strings.HasSuffix(e.RecvS, ".Milestones") && strings.HasPrefix(e.Args[0], "append(") })
+				app := r.Stores(func(e *Effect) bool {
+					return strings.HasSuffix(e.RecvS, ".Milestones") && strings.HasPrefix(e.Args[0], "append(")
+				})
 				dup := v.B("has") && v["et"] == v["mt"]
 				if dup && len(app) != 0 {
 					return false, "at most one milestone per instant may be kept for a task"
@@ -183,7 +201,9 @@ func runC36(c *Ctx) {
 				if !dup && len(app) != 1 {
 					return false, "a milestone at a new instant must be kept (also when kind and what repeat)"
 				}
-				if !v.B("known") && len(r.Stores(func(e *Effect) bool { return strings.Contains(e.RecvS, "tracingTasks[") && strings.HasSuffix(e.RecvS, "]") })) != 1 {
+				if !v.B("known") && len(r.Stores(func(e *Effect) bool {
+					return strings.Contains(e.RecvS, "tracingTasks[") && strings.HasSuffix(e.RecvS, "]")
+				})) != 1 {
 					return false, "a milestone that mentions an unknown task must create its entry"
 				}
 				return true, ""
@@ -195,11 +215,15 @@ func runC36(c *Ctx) {
 			if !lockHeld(r) {
 				return false, "must hold the mutex"
 			}
-			app := r.Stores(func(e *Effect) bool { return strings.HasSuffix(e.RecvS, ".Tags") && strings.HasPrefix(e.Args[0], "append(") })
+			app := r.Stores(func(e *Effect) bool {
+				return strings.HasSuffix(e.RecvS, ".Tags") && strings.HasPrefix(e.Args[0], "append(")
+			})
 			if len(app) != 1 {
 				return false, "every tag must be kept"
 			}
-			if !v.B("known") && len(r.Stores(func(e *Effect) bool { return strings.Contains(e.RecvS, "tracingTasks[") && strings.HasSuffix(e.RecvS, "]") })) != 1 {
+			if !v.B("known") && len(r.Stores(func(e *Effect) bool {
+				return strings.Contains(e.RecvS, "tracingTasks[") && strings.HasSuffix(e.RecvS, "]")
+			})) != 1 {
 				return false, "a tag that mentions an unknown task must create its entry"
 			}
 			return true, ""
